@@ -924,10 +924,11 @@ def sink_docs():
     body = mk("body", {"begin": tx(1, 0), q(TTS, "color"): "aqua", "timeContainer": "par", q(XML, "space"): "default"}, [
       mk("div", {"region": "r1", "style": "s0", "begin": tx(1, 1), "dur": tx(20, 0)}, [
         mk("p", {"begin": tx(1, 0), "end": tx(10, 1), "style": "s1 s0", q(TTS, "textAlign"): "end", q(TTS, "color"): "rgb(1,2,3)",
-                 q(TTS, "backgroundColor"): "#102030", q(XML, "space"): "preserve", "timeContainer": "seq"},
+                 q(TTS, "backgroundColor"): "#102030", q(XML, "space"): "preserve", "timeContainer": "par"},
            [mk("set", {"dur": tx(1, 0), q(TTS, "color"): "green"}), " x ",
             mk("span", {"dur": tx(2, 1), q(TTS, "fontWeight"): "normal", q(TTS, "textDecoration"): "noUnderline lineThrough", q(TTS, "color"): "rgba(9,8,7,6)"}, [" A "]),
-            mk("br"), mk("span", {"begin": tx(1, 0), "end": tx(3, 1), q(TTS, "visibility"): "hidden", q(TTS, "display"): "auto"}, ["B"])]),
+            mk("br"), mk("span", {"begin": tx(1, 0), "end": tx(3, 1), q(TTS, "visibility"): "hidden", q(TTS, "display"): "auto", "timeContainer": "seq"},
+                         ["dropped", mk("span", {"dur": tx(1, 0)}, ["B"])])]),
         mk("p", {"begin": tx(2, 1), "dur": tx(5, 0), q(TTS, "fontStyle"): "oblique"}, ["C ", mk("span", {"style": "s0"}, ["D"])])])])
     a = {q(XML, "space"): "default", q(TTP, "frameRate"): "25", q(TTP, "frameRateMultiplier"): "1 1", q(TTP, "tickRate"): "1000",
          q(TTP, "cellResolution"): "40 20", q(TTS, "extent"): "1280px 720px"}
